@@ -23,6 +23,12 @@
 #include <cstdlib>
 #include <assert.h>
 
+// Build the core's generic tables while the program starts: instances running in parallel threads then only read them
+static struct MameOPN2Tables
+{
+    MameOPN2Tables() { ym2612_init_tables(); }
+} s_mameOPN2Tables;
+
 MameOPN2::MameOPN2(OPNFamily f)
     : OPNChipBaseT(f)
 {
